@@ -566,3 +566,31 @@ func (g *LALR) After(syms []int) map[int][]int { // end state -> start states
 	}
 	return out
 }
+
+// AfterRule: the states reached after the right-hand side of rule, started from every state in which the rule's
+// left-hand side is expected (valid goto edge) — end state -> start states.
+func (g *LALR) AfterRule(rule int) map[int][]int {
+	out := map[int][]int{}
+	var starts []int
+	for s := range g.Reach {
+		if _, ok := g.Edges[s][-g.R1[rule]]; ok {
+			starts = append(starts, s)
+		}
+	}
+	sort.Ints(starts)
+	for _, p0 := range starts {
+		st, ok := p0, true
+		for _, sym := range g.RHS[rule] {
+			nx, has := g.Edges[st][sym]
+			if !has {
+				ok = false
+				break
+			}
+			st = nx
+		}
+		if ok {
+			out[st] = append(out[st], p0)
+		}
+	}
+	return out
+}
